@@ -12,7 +12,8 @@ from .common import enc_ext, enc_list, Toks
 
 RULE = ('recursive and non-recursive shapes with integer log-weights {-inf,0,-1,-2,-3} (ties and weight-one cycles occur), rules whose '
         'attached nodes are all external, nullary-only rules, rules with edgeless nodes, start arity 0..2; every start assignment with '
-        'finite best weight; non-trivial = derivation with >= 2 rule instances')
+        'finite best weight; the tables viterbi built (hook) against the table-filling model Vt.viterbiTables: maxima and lhs pointers exactly, every '
+        'rhs pointer an argmax; non-trivial = derivation with >= 2 rule instances')
 ASSUMPTIONS = ['integer log-weights: max-plus arithmetic is exact; rounding for other weights is outside the model',
                'Python recursion limit: the model\'s checker uses fuel 64']
 
